@@ -4,6 +4,7 @@ import Jap.Lemmas.ChannelsText
 import Jap.Lemmas.ChannelsKeys
 import Jap.Lemmas.ChannelsAssign
 import Jap.Lemmas.ChannelsDecode
+import Jap.Lemmas.ChannelsEnc
 /-!
 # C05 — The same settings give the same configuration through every input channel
 
@@ -105,6 +106,9 @@ theorem C05_envvar_collision_case :
     ∧ envSafe ⟨"Ab", []⟩ = true ∧ foldKey ⟨"Ab", []⟩ = foldKey ⟨"ab", []⟩ := by decide
 
 /-! ## every channel delivers the settings -/
+
+/-- equal leaves hold equal values: the tagging of booleans and strings inside the Namespace model loses nothing -/
+theorem C05_enc_injective (v w : Val) (h : enc v = enc w) : v = w := enc_inj h
 
 /-- every channel accepts the settings and yields the namespace obtained by assigning them to the base -/
 theorem C05_apply_render (P : Parser) (S : Settings) (ns : KV) (c : Channel)
